@@ -100,6 +100,11 @@ def mark_body(toks, a, b):
             if t.text == "proof" and toks[k + 1].text == "{":
                 e = match_close(toks, k + 1)
                 _mark(toks, k, e + 1, "ghost"); k = e + 1; continue
+            if t.text in ("hide", "reveal", "reveal_with_fuel") and toks[k + 1].text == "(":
+                # fuel directives `hide(f);` / `reveal(f);` (Verus headers, no executable meaning)
+                e = match_close(toks, k + 1)
+                if toks[e + 1].text == ";":
+                    _mark(toks, k, e + 2, "ghost"); k = e + 2; continue
             if t.text == "let" and toks[k + 1].text in ("ghost", "tracked"):
                 depth = 0; e = k
                 while True:
